@@ -178,6 +178,12 @@ def _codes(*fns):
 def counted(codes, fn):
     """run fn() counting the source lines executed inside the given code objects (the reader's own frames):
     the measured counterpart of the models' `work`"""
+    if os.environ.get("COVERAGE_PROCESS_START") or os.environ.get("C20_NO_LINECOUNT"):
+        # the coverage audit (harness/cov_one.sh) owns the trace hook: no line counting in that run
+        try:
+            return fn(), None
+        except (Exception, SystemExit) as ex:  # noqa: BLE001
+            return "exc " + type(ex).__name__, None
     n = [0]
 
     def local(frame, event, arg):
@@ -278,6 +284,30 @@ def direct(kind, path, extra, info):
                      Node.__init__, Leaf.__init__, CollectionManifest_load()))
 
 
+def exercise_index(kind, idx):
+    """post-load use of a (possibly damaged) index the way later commands use it; ordinary exceptions are fine"""
+    uses = []
+    if kind == "lca":
+        def lca_use():
+            for hv in list(idx.hashvals)[:20]:
+                idx.get_lineage_assignments(hv)
+                idx.get_identifiers_for_hashval(hv)
+            len(idx)
+            repr(idx)
+        uses.append(lca_use)
+    if kind in ("sbtzip", "sbtjson"):
+        uses += [lambda: list(idx.leaves()), lambda: idx._fill_internal(), lambda: idx.print_dot(), lambda: len(idx),
+                 lambda: list(idx._parents(max(idx._leaves))) if idx._leaves else None]
+    uses += [lambda: idx.location, lambda: list(idx.signatures_with_location()), lambda: bool(idx),
+             lambda: idx.select(ksize=31, moltype="DNA", containment=True), lambda: idx.select(num=500),
+             lambda: idx.select(abund=True)]
+    for u in uses:
+        try:
+            u()
+        except Exception:  # noqa: BLE001
+            pass
+
+
 _REF_SIGS = None
 
 
@@ -320,7 +350,7 @@ def battery(path, info):
         except Exception as e:  # noqa: BLE001
             b[op] = ["E:" + type(e).__name__] * len(_REF_SIGS)
     res = []
-    for q in _REF_SIGS:                        # and once with a fresh index per query (no node cache)
+    for q in (_REF_SIGS if ".sbt." in path else []):      # SBTs cache nodes: once more with a fresh index per query
         try:
             res.append(one(sourmash.load_file_as_index(path), "search", q))
         except Exception as e:  # noqa: BLE001
@@ -334,15 +364,19 @@ def load(kind, path, extra, info):
         return battery(path, info)
     if kind in ("sig", "siggz"):
         n = 0
-        for ss in observe_chain(path, info, lambda p: list(sourmash.load_file_as_signatures(p))):
+        loaded = observe_chain(path, info, lambda p: list(sourmash.load_file_as_signatures(p)))
+        info["_primary"] = (None, loaded)
+        for ss in loaded:
             n += len(ss.minhash)
             exercise(ss)
         data = open(path, "rb").read()
         for ss in sigmod.load_signatures_from_json(data):
             exercise(ss)
-    elif kind in ("zip", "sqldb", "sbtzip", "sbtjson", "lca", "pathlist"):
+    elif kind in ("zip", "zipnomf", "sqldb", "sbtzip", "sbtjson", "lca", "pathlist"):
         idx = observe_chain(path, info)
         sigs = list(idx.signatures())
+        info["_primary"] = (idx, sigs)
+        exercise_index(kind, idx)
         for ss in sigs[:3]:
             exercise(ss)
             if ss.minhash.scaled:
@@ -363,16 +397,50 @@ def load(kind, path, extra, info):
         m = CollectionManifest.load_from_filename(path)
         len(m)
         [r["md5"] for r in m.rows]
+        # a manifest that loaded is used: the calls later commands make on it may refuse (ordinary exception), not crash
+        for use in (lambda: m.select_to_manifest(ksize=21), lambda: m.select_to_manifest(moltype="DNA", scaled=1),
+                    lambda: list(m.locations()), lambda: m.to_picklist(), lambda: m == m, lambda: bool(m), lambda: m + m,
+                    lambda: m._check_row_values(), lambda: m.filter_on_columns(lambda x: True, ["name"]),
+                    lambda: CollectionManifest.load_from_manifest(m)):
+            try:
+                use()
+            except Exception:  # noqa: BLE001
+                pass
     elif kind in ("picklist", "plarg"):
         from sourmash.picklist import SignaturePicklist
         pl = SignaturePicklist.from_picklist_args((extra or "{}:md5:md5").replace("{}", path))
         pl.load()
+    elif kind == "hll":
+        from sourmash.hll import HLL
+        h = HLL.load(path)
+        len(h)
+        h.cardinality()
+        h.add_sequence(SENT_SEQ, True)
+        h.add(17)
+        h.similarity(h)
+        h.containment(h)
+        h.intersection(h)
+        bytes(h.to_bytes())
+        mh = MinHash(0, 21, scaled=1)
+        mh.add_sequence(SENT_SEQ, True)
+        try:
+            h.update(mh)
+            h.matches(mh)
+        except (ValueError, TypeError):
+            pass
+        return "ok " + str(h.ksize)
     elif kind == "nodegraph":
         from sourmash.nodegraph import Nodegraph
         ng = Nodegraph.load(path)
         ng.get(5)
         ng.count(7)
         ng.n_occupied()
+        for use in (lambda: ng.ksize, lambda: ng.hashsizes(), lambda: ng.expected_collisions, lambda: ng.update(ng),
+                    lambda: bytes(ng.to_bytes()), lambda: ng.count_kmer("A" * ng.ksize) if ng.ksize < 100 else None):
+            try:
+                use()
+            except Exception:  # noqa: BLE001
+                pass
         return "ok " + ",".join(str(x) for x in ng.tablesizes()) if hasattr(ng, "tablesizes") and callable(ng.tablesizes) else "ok"
     elif kind == "taxonomy":
         from sourmash.tax.tax_utils import MultiLineageDB
@@ -384,6 +452,14 @@ def load(kind, path, extra, info):
 
 
 def main():
+    import periphery
+    per = periphery.Periphery()
+    # the protocol goes over a private copy of stdout; whatever the library (print_dot, the command line, progress
+    # output) writes to fd 1 / sys.stdout goes to /dev/null
+    proto = os.fdopen(os.dup(1), "w")
+    devnull = os.open(os.devnull, os.O_WRONLY)
+    os.dup2(devnull, 1)
+    sys.stdout = open(os.devnull, "w")
     for line in sys.stdin:
         parts = line.rstrip("\n").split("\t")
         kind, path = parts[0], parts[1]
@@ -394,6 +470,14 @@ def main():
             res = load(kind, path, extra, info)
         except (Exception, SystemExit) as e:  # noqa: BLE001   SystemExit: some loaders call sys.exit on error
             res = "exc " + type(e).__name__
+        primary = info.pop("_primary", None)
+        if primary is not None:
+            info["n_primary"] = len(primary[1])
+        if kind not in ("ref", "pathlist"):
+            try:
+                per.after_job(kind, path, extra, primary, info)
+            except Exception as e:  # noqa: BLE001
+                info["periphery_error"] = type(e).__name__ + ": " + str(e)[:200]
         if res != "ok":
             try:
                 s = sentinel()
@@ -402,8 +486,8 @@ def main():
             except BaseException as e:  # noqa: BLE001
                 res += " SENTINEL-FAILED:" + type(e).__name__
         info["o"] = res
-        sys.stdout.write(json.dumps(info) + "\n")
-        sys.stdout.flush()
+        proto.write(json.dumps(info) + "\n")
+        proto.flush()
 
 
 if __name__ == "__main__":
